@@ -249,6 +249,16 @@ func (x *fnCtx) havocGuarded(st *State, owner *Addr, lockField string) {
 			st.assume(f)
 		}
 		x.assumeValAllocated(st, nv)
+		// shared state cannot refer to objects this call allocated and has not published yet
+		for li, l := range layout(ft) {
+			if l.Role == "ref" || l.Role == "arr" {
+				for r := range st.fresh {
+					if !st.escaped[r] {
+						st.assume(Ne(nv.L[li], r))
+					}
+				}
+			}
+		}
 		for i, l := range layout(ft) {
 			arr := x.heapArr(st, name+l.Suffix, ArrSort(SInt, l.Sort))
 			x.setHeap(st, name+l.Suffix, Store(arr, owner.Base, nv.L[i]))
